@@ -79,6 +79,12 @@ def handle : List String → Option (List String)
     match s.toNat? with
     | some n => some [Hex.encode (slotTag n)]
     | none => some ["bad-op"]
+  | ["c18", "rdb", cl, rep, key] =>
+    match Hex.decode key with
+    | some k =>
+      let u := buildRdbUnit (cl == "1") (rep == "1") k []
+      some [s!"{Hex.encode (rdbTargetKey (rep == "1") k)} slot={u.slot} tag={Hex.encode u.slotTag}"]
+    | none => some ["bad-op"]
   | "c18" :: "build" :: mode :: fb :: cmds =>
     match fb? fb, cmds.mapM cmd? with
     | some f, some cs =>
